@@ -687,3 +687,41 @@ CAST_TIME_STRUCTS = [
     structure("DS_VP", [("Id_1", "Integer", I, False), ("Me_1", "Time_Period", M, True)]),
     structure("DS_VD", [("Id_1", "Integer", I, False), ("Me_1", "Date", M, True)]),
 ]
+
+
+# ------------------------------------------------------------------------------------------ C29 case-variant names
+def c29(tier):
+    """names that differ only in letter case are different objects: every context is compared with the (case-sensitive) reference"""
+    out = []
+    n = 2 if tier == "quick" else 3
+    CASE_POOL = POOL + [S("DS_C", ID2, [("Me_1", "Integer"), ("me_1", "Integer")]), S("DS_Ci", [("Id_1", "Integer"), ("id_1", "Integer")], [("Me_1", "Integer")]),
+                        S("ds_4", ID2, [("Me_1", "Integer")])]
+
+    def TC(tid, expr, nrows=n, extra=(), **kw):
+        d = dict(id=tid, ast=start(*(list(extra) + [assign("DS_r", expr)])), structs=CASE_POOL, nrows=nrows, probe_first=True)
+        d.update(kw)
+        out.append(d)
+    # a component renamed / created with a name that differs only in case from an existing or previous one
+    TC("rename_to_variant", rename("DS_4", [("Me_1", "me_1")]))
+    TC("rename_variant_then_filter", filter_(rename("DS_4", [("Me_1", "me_1")]), binop(">", "me_1", 0)))
+    TC("rename_variant_then_calc", calc(rename("DS_4", [("Me_1", "me_1")]), [("measure", "Me_2", binop("+", "me_1", 1))]))
+    TC("rename_variant_then_keep", keep(rename("DS_1", [("Me_1", "me_1")]), ["me_1"]))
+    TC("rename_variant_plus", binop("+", rename("DS_4", [("Me_1", "me_1")]), rename("DS_5", [("Me_1", "me_1")])))
+    TC("rename_variant_union_first", setop("union", [rename("DS_4", [("Me_1", "me_1")]), rename("DS_5", [("Me_1", "me_1")])]))
+    TC("rename_swap_case", rename("DS_1", [("Me_1", "me_2"), ("Me_2", "me_1")]))
+    TC("rename_id_variant", rename("DS_4", [("Id_2", "id_2")]))
+    TC("aggr_alias_variant", aggr("DS_4", [("measure", "me_1", "sum", "Me_1")], "group by", ["Id_1"]), 3)
+    TC("calc_add_variant", calc("DS_4", [("measure", "me_1", binop("+", "Me_1", 1))]))
+    TC("calc_add_variant_upper", calc("DS_4", [("measure", "ME_1", binop("*", "Me_1", 2))]))
+    TC("calc_then_use_both", calc(calc("DS_4", [("measure", "me_1", binop("+", "Me_1", 1))]), [("measure", "Me_3", binop("-", "me_1", "Me_1"))]))
+    TC("join_rename_variants", jbody(join("inner_join", [("DS_4", "d1"), ("DS_5", "d2")]), lambda j: rename(j, [("d1#Me_1", "me_1"), ("d2#Me_1", "Me_2")])))
+    # inputs that already hold case variants
+    TC("input_two_variants_copy", var("DS_C"))
+    TC("input_two_variants_sum", calc("DS_C", [("measure", "Me_3", binop("+", "Me_1", "me_1"))]))
+    TC("input_two_variants_keep", keep("DS_C", ["me_1"]))
+    TC("input_id_variants", var("DS_Ci"))
+    # datasets / results whose names differ only in case
+    TC("result_names_variant", binop("+", "DS_4", 1), extra=[assign("ds_r", binop("*", "DS_4", 2))], check=["DS_r", "ds_r"],
+       samples=0)       # (the harness's own DuckDB replica keeps both tables alive: its self-check does not apply to this template)
+    TC("input_names_variant", binop("+", "DS_4", var("ds_4")))
+    return out
